@@ -382,20 +382,26 @@ def stateCore (focus : String) (c : Case) : Acc × String := Id.run do
     if wants focus "twins" then
       for pre in ["again", "fresh"] do
         let t := step.get pre
+        -- under fault injection an update may legitimately leave nothing behind (C09; judged by the
+        -- model); what IS present must still be what a fresh problem reports
+        let absentOk := faultMode && pre == "fresh"
         if let (some a, some b) := (o.res, t.res) then
           match a, b with
           | some x, some y => acc := acc.addMon (cmpBits s!"step{si}:{pre}-res" x y)
           | none, none => pure ()
+          | none, some _ => if !absentOk then acc := { acc with mon := acc.mon.push s!"step{si}:{pre}-res-presence" }
           | _, _ => acc := { acc with mon := acc.mon.push s!"step{si}:{pre}-res-presence" }
         if let (some a, some b) := (o.coef, t.coef) then
           match a, b with
           | some x, some y => acc := acc.addMon (cmpBits s!"step{si}:{pre}-coef" x.a y.a)
           | none, none => pure ()
+          | none, some _ => if !absentOk then acc := { acc with mon := acc.mon.push s!"step{si}:{pre}-coef-presence" }
           | _, _ => acc := { acc with mon := acc.mon.push s!"step{si}:{pre}-coef-presence" }
         if let (some a, some b) := (o.jac, t.jac) then
           match a, b with
           | some x, some y => acc := acc.addMon (cmpBits s!"step{si}:{pre}-jac" x.a y.a)
           | none, none => pure ()
+          | none, some _ => if !absentOk then acc := { acc with mon := acc.mon.push s!"step{si}:{pre}-jac-presence" }
           | _, _ => acc := { acc with mon := acc.mon.push s!"step{si}:{pre}-jac-presence" }
     -- --- C06 / C11 twins: whole outputs must agree (same arithmetic on both sides)
     let twinList : List String :=
